@@ -58,6 +58,10 @@ type Model struct {
 	rfOnStack map[*ssa.Function]bool
 	rpMemo map[string][]map[string]Lit
 	justDepth int
+	assumeNil map[ssa.Value]bool
+	assume map[ssa.Value]bool
+	refreshFn *ssa.Function
+	unitMemo map[*ssa.Function][]*ssa.Function
 	onceRoots map[*ssa.Function]bool
 	la      *LockAnalysis
 
